@@ -563,6 +563,18 @@ pub fn run(r: &mut Runner) {
             for &f in &fr {
                 for s in [false, true] {
                     let a = tfref::alpha::mk_f64(s, e, f).unwrap();
+                    // special low words: whatever is accepted must still be a valid pair (a NaN or infinite low word never is)
+                    for b in [f64::NAN, -f64::NAN, f64::from_bits(0x7ff0_0000_0000_0001), f64::INFINITY, f64::NEG_INFINITY, 0.0, -0.0, 5e-324, -5e-324, f64::MAX, f64::MIN, f64::MIN_POSITIVE] {
+                        let args = [a.to_bits(), b.to_bits()];
+                        for (which, res) in [("try_from_tuple", st::TF::try_from((a, b)).ok()), ("try_from_array", st::TF::try_from([a, b]).ok())] {
+                            let v = match res {
+                                Some(t) if !ok_result([t.hi(), t.lo()]) => Verdict::fail("normalised_or_nonfinite_hi", which, &args, show_dd([t.hi(), t.lo()]), "Err, or a valid TwoFloat".into(), if t.lo().is_finite() { "overlapping_words" } else { "finite_hi_nonfinite_lo" }),
+                                _ => Verdict::Pass,
+                            };
+                            rec.record(l, (1u64 << 52) + ((c as u64) << 16) + i, v);
+                            i += 1;
+                        }
+                    }
                     for j in -2..=1 {
                         let te = e - 53 + j;
                         if te < -1074 {
